@@ -191,9 +191,16 @@ func (c *Check) oracle(pre *St, op Op, out Outcome, post *St, m *sm.SeatManager,
 			bad("player-count:"+op.Kind, fmt.Sprintf("after %s the number of seated players changed by %d", op.Label(), occDelta), strconv.Itoa(wantDelta), strconv.Itoa(occDelta))
 		}
 		if m != nil {
-			if got := m.GetPlayerCount(); got != post.occupiedCount() {
-				bad("player-count:query", "GetPlayerCount differs from the seats", strconv.Itoa(post.occupiedCount()), strconv.Itoa(got))
-			}
+			func() {
+				defer func() {
+					if r := recover(); r != nil {
+						bad("panic:GetPlayerCount", fmt.Sprintf("GetPlayerCount panics after %s in [%s]: %v", op.Label(), post, r), "no panic", fmt.Sprint(r))
+					}
+				}()
+				if got := m.GetPlayerCount(); got != post.occupiedCount() {
+					bad("player-count:query", "GetPlayerCount differs from the seats", strconv.Itoa(post.occupiedCount()), strconv.Itoa(got))
+				}
+			}()
 		}
 		for i := 0; i < n; i++ {
 			if post.Held[i] && post.playable(i) {
@@ -520,14 +527,19 @@ func (c *Check) Run() {
 func (c *Check) availability(s *St, bad sink) {
 	m := Build(s)
 	var a, alt []int
+	nAvail := -1
 	func() {
 		defer func() {
 			if r := recover(); r != nil {
-				bad("panic:GetAvailableSeats", "GetAvailableSeats panics", "no panic", fmt.Sprint(r))
+				bad("panic:GetAvailableSeats", "GetAvailableSeats / GetAvailableSeatCount panics", "no panic", fmt.Sprint(r))
 			}
 		}()
 		a, alt = m.GetAvailableSeats()
+		nAvail = m.GetAvailableSeatCount()
 	}()
+	if nAvail < 0 {
+		return
+	}
 	var wa, walt []int
 	for i := 0; i < s.N; i++ {
 		if s.Occ[i] || s.Res[i] {
@@ -539,7 +551,7 @@ func (c *Check) availability(s *St, bad sink) {
 			walt = append(walt, i)
 		}
 	}
-	if n := m.GetAvailableSeatCount(); n != len(wa) {
+	if n := nAvail; n != len(wa) {
 		bad("available-seats", fmt.Sprintf("GetAvailableSeatCount() of [%s]", s), fmt.Sprint(len(wa)), fmt.Sprint(n))
 	}
 	if fmt.Sprint(sortedInts(a)) != fmt.Sprint(wa) || fmt.Sprint(sortedInts(alt)) != fmt.Sprint(walt) {
